@@ -373,7 +373,7 @@ def run(prop: str, tier: str) -> int:
     rep.bounds = {"expressions": b1, "equations": b2}
     rep.functions = V.FUNCTIONS + ["mathy_core.rule.BaseRule.find_node/find_nodes", "MathExpression.clone_from_root/clone"]
     rep.stubs = shims.STUBS
-    use_grid("quick" if tier == "quick" else "full")
+    use_grid("quick")  # the 25-value grid is used by C05/C08/C16 thorough; here the families grow instead
     rep.bounds["grid"] = grid_text()
     if prop == "C06":
         rep.explanation = (
